@@ -1,6 +1,7 @@
 package c13
 
 import (
+	"fmt"
 	"strings"
 	"testing"
 
@@ -25,6 +26,7 @@ type CliCase struct {
 	Out       string      `json:"out"` // newick | nexus | phyloxml
 	Translate bool        `json:"translate,omitempty"`
 	ToFile    bool        `json:"to_file,omitempty"`
+	Broken    int         `json:"broken,omitempty"` // newick input: 1+index of a member made syntactically invalid (0 = none)
 }
 
 func checkCli(c CliCase) error {
@@ -32,6 +34,11 @@ func checkCli(c CliCase) error {
 	switch c.In {
 	case "newick":
 		doc = docs.MultiNewick(c.Trees, docs.Layout{})
+		if c.Broken > 0 && c.Broken <= len(c.Trees) {
+			lines := strings.Split(strings.TrimRight(doc, "\n"), "\n")
+			lines[c.Broken-1] = breakTree(lines[c.Broken-1])
+			doc = strings.Join(lines, "\n") + "\n"
+		}
 	case "nexus":
 		doc = docs.Nexus(c.Trees, docs.NexusOpts{Taxa: true})
 	case "phyloxml":
@@ -48,6 +55,9 @@ func checkCli(c CliCase) error {
 	return cli.DifferentialOut(args, doc, nil, of, func() (string, error) {
 		// the expected text is produced from the models: reader and writer are judged separately by
 		// the `formats` check, here the command must apply them in the right order with the right options
+		if c.In == "newick" && c.Broken > 0 && c.Broken <= len(c.Trees) {
+			return "", fmt.Errorf("member %d of the stream is not a tree", c.Broken-1)
+		}
 		dropPv := c.In == "phyloxml"
 		ts, err := build(expectAll(c.Trees, dropPv))
 		if err != nil {
@@ -81,7 +91,7 @@ func expectAll(ms []*ref.Node, dropPv bool) []*ref.Node {
 func TestC13Cli(t *testing.T) {
 	h.Run(t, h.Spec[CliCase]{
 		Property: "C13", Name: "cli", Quick: 1600, Thorough: 32000,
-		Rule: "`gotree reformat newick|nexus|phyloxml --input-format newick|nexus|phyloxml [--translate]` on independently written documents of 1-4 same-taxa trees with labels legal in all formats: the output must be byte-identical to the library writer applied to the same trees; non-trivial = >= 2 trees or a format change",
+		Rule: "`gotree reformat newick|nexus|phyloxml --input-format newick|nexus|phyloxml [--translate]` on independently written documents of 1-4 same-taxa trees with labels legal in all formats: the output must be byte-identical to the library writer applied to the same trees; a quarter of the Newick inputs hold a syntactically broken member, on which the command must fail (non-zero status) instead of printing a truncated result; non-trivial = >= 2 trees or a format change",
 		Gen: func(t *rapid.T, thorough bool) CliCase {
 			o := gen.Opts{MinTips: 2, MaxTips: 9, Rooted: -1, MaxDeg: 5, Lens: gen.AnyPresence, LenVals: gen.Arbitrary, Sups: gen.AnyPresence, InnerNames: gen.AnyPresence}
 			base := gen.Tree(t, o)
@@ -94,6 +104,9 @@ func TestC13Cli(t *testing.T) {
 			}
 			relabel(t, c.Trees)
 			c.ToFile = rapid.IntRange(0, 2).Draw(t, "tofile") == 0
+			if c.In == "newick" && rapid.IntRange(0, 3).Draw(t, "hasbroken") == 0 {
+				c.Broken = 1 + rapid.IntRange(0, len(c.Trees)-1).Draw(t, "broken")
+			}
 			return c
 		},
 		Check: checkCli,
